@@ -9,6 +9,8 @@ for n in sorted(os.listdir(os.path.join(V, "seeded"))):
         continue
     m = json.load(open(mp))
     desc = m.get("description", "")
+    desc = desc if len(desc) <= 170 else desc[:167] + "…"
+    desc = desc.replace("|", "\\|")
     for p, r in sorted(m.get("checks", {}).items()):
         how = ""
         if r.get("replay"):
